@@ -4,5 +4,6 @@ package engines
 import (
 	_ "verif/sim/engines/dkgsim"
 	_ "verif/sim/engines/dsssim"
+	_ "verif/sim/engines/signsim"
 	_ "verif/sim/engines/vsssim"
 )
